@@ -132,6 +132,19 @@ def drive_estimator(seed):
                                    key=("estl", repr(A), str(engine)), meta=w))
         except Exception as ex:
             bad.append(("C13.no-error", dict(exc=type(ex).__name__, op="sample_in_gamut", lbpos=True, d=d), None, repr(ex)[:200]))
+        # no upper bounds, and a baseline or positive lower bounds: the gamut is a cone shifted by its apex
+        try:
+            for lbq, blq in (([0] * n_src, [1] * d), ([1] * n_src, [0] * d)):
+                sysu = dict(sysd, lb=lbq, ub=[dsys.INF] * n_src, bk=("vector" if any(blq) else "none"), bl=blq)
+                estu = dsys.make_estimator(dreye, sysu)
+                apex = np.array(A) @ np.array(lbq) + np.array(blq)
+                l1 = float(apex.sum()) * 1.5 + 2.0
+                w = dict(op="sample_in_gamut", d=d, engine="None", n=200, l1="unbounded", lbpos=any(lbq), baseline=any(blq))
+                X = np.asarray(estu.sample_in_gamut(200, seed=seed, l1=l1), float)
+                events.append(dict(ev="l1cone", M=[list(r) for r in A], apexS=[int(v * S) for v in apex], n=200, l1S=int(round(l1 * S)), count=int(X.shape[0]),
+                                   pts=np.rint(X * S).astype(int).tolist(), S=S, tol=TOL, key=("estu", repr(A), repr(lbq)), meta=w))
+        except Exception as ex:
+            bad.append(("C13.no-error", dict(exc=type(ex).__name__, op="sample_in_gamut", unbounded=True, d=d), None, repr(ex)[:200]))
         # the same estimator after its bounds have been changed: samples must come from the NEW gamut
         try:
             newub = [1] * (n_src - 1) + [0]
